@@ -86,6 +86,9 @@ def cases_sampler(tier):
                     yield "%s/R%dP%dN%d/mask=%s/%s" % (method, R, P, N, mask, "shared" if shared else "per-realization"), {
                         "method": method, "R": R, "P": P, "N": N, "mask": mask, "shared": shared, "options": {}}
     yield "uniform/R2P1N1/options-override", {"method": "uniform", "R": 2, "P": 1, "N": 1, "mask": None, "shared": False, "options": {"loc": 0.0, "scale": 0.5}}
+    # partial options: the defaults still fill in what the user left out
+    yield "uniform/R2P1N1/options-partial", {"method": "uniform", "R": 2, "P": 1, "N": 1, "mask": None, "shared": False, "options": {"scale": 2.0}}
+    yield "truncnorm/R2P1N1/options-partial", {"method": "truncnorm", "R": 2, "P": 1, "N": 1, "mask": None, "shared": False, "options": {"loc": 0.0}}
     # a sampler with default options created after (and used after) another instance of the same method that was given explicit
     # options: instances must not share option state
     for method, prior in (("uniform", {"loc": -5.0, "scale": 10.0}), ("truncnorm", {"a": -4.0, "b": 4.0}), ("norm", {"scale": 3.0}), ("sobol", {"scramble": False}), ("lhs", {"scramble": False})):
@@ -183,7 +186,8 @@ def scn_sampler(T, case):
 # ------------------------------------------------------------------------------------ native comparison with the real SciPy
 def cases_native(tier):
     for method in STATS + QMC:
-        for (R, P, N) in ((2, 2, 2), (3, 4, 3)) + (() if tier == "quick" else ((1, 8, 2), (4, 2, 1))):
+        # (point counts per call that are and are not powers of two; four consecutive calls on the same sampler)
+        for (R, P, N) in ((2, 2, 2), (3, 4, 3), (4, 4, 2)) + (() if tier == "quick" else ((1, 8, 2), (4, 2, 1), (2, 16, 3), (5, 3, 2))):
             for shared in (False, True):
                 for mask in (None, [True] + [False] * (N - 1) if N > 1 else None, [False] * N):
                     yield "%s/R%dP%dN%d/%s/mask=%s" % (method, R, P, N, "shared" if shared else "own", mask), {
@@ -211,7 +215,7 @@ def scn_native(T, case):
     with warnings.catch_warnings():
         warnings.simplefilter("ignore")
         eng = {"sobol": Sobol, "halton": Halton, "lhs": LatinHypercube}[method](d, seed=ref_rng) if method in QMC else None
-        for call in range(2):
+        for call in range(4):
             out = s.generate_samples()
             if d == 0:
                 ref = np.zeros((Rd, P, 0))  # no variable handled: the reference draws nothing
@@ -249,6 +253,25 @@ def scn_assignment(T, case):
     scn_get_mask(T, case)
 
 
+# ------------------------------------------------------------------------------------ several samplers: every one's samples are kept, none is modified
+def cases_combined(tier):
+    from contracts import C10
+
+    for cid, c in C10.cases_perturb(tier):
+        if c["samplers"] is not None:
+            yield cid, c
+
+
+def scn_combined(T, case):
+    """'Variables assigned to another sampler': with several samplers in use the perturbation of every variable comes from the sampler
+    it is assigned to - two, three or four samplers, interleaved - and the arrays the samplers returned are left as they are
+    (C10's scenario of _perturb_variables under this property's prefix)."""
+    from contracts import C10
+    from contracts.reuse import Renamed
+
+    C10.scn_perturb(Renamed(T, "C10.", "C17.combined."), case)
+
+
 # ------------------------------------------------------------------------------------ the validated mask and sampler assignment are what the user configured
 def cases_validated_mask_and_assignment(tier):
     for tr in (False, True):
@@ -269,6 +292,7 @@ def scn_validated_mask_and_assignment(T, case):
 SCENARIOS = [
     Scenario("sampler_contract", scn_sampler, cases_sampler, {"quick": 3, "thorough": 20}),
     Scenario("native_scipy_reference", scn_native, cases_native, {"quick": 3, "thorough": 30}),
+    Scenario("samples_of_several_samplers_combined", scn_combined, cases_combined, {"quick": 5, "thorough": 40}),
     Scenario("sampler_variable_assignment", scn_assignment, cases_assignment, {"quick": 1, "thorough": 1}),
     Scenario("validated_mask_and_assignment", scn_validated_mask_and_assignment, cases_validated_mask_and_assignment, {"quick": 2, "thorough": 10}),
 ]
